@@ -251,7 +251,7 @@ pub fn run(rep: &mut StageReport, tier: &str, seed: u64, profile: &str) {
         Duration::new(3, 999_999_999),
     ];
     let factors = [0u64, 1, 2, 3, 10, 1 << 16, 1 << 32, u64::MAX];
-    let attempts = [0u32, 1, 2, 21, 64, 65, 66, 1000, 5000];
+    let attempts = [0u32, 1, 2, 21, 64, 65, 66, 1000, 5000, u32::MAX - 1, u32::MAX];
     let caps = [None, Some(Duration::ZERO), Some(Duration::from_millis(1)), Some(Duration::from_secs(30)), Some(Duration::MAX)];
     let mut cfgs: Vec<Cfg> = vec![];
     for s in steps {
@@ -294,7 +294,9 @@ pub fn run(rep: &mut StageReport, tier: &str, seed: u64, profile: &str) {
                 _ => 2,
             }),
         };
-        let attempts = match rng.below(4) {
+        let kinds = if rng.pct(2) { 5 } else { 4 };
+        let attempts = match rng.below(kinds) {
+            4 => u32::MAX - rng.below(3) as u32,
             0 => rng.below(8) as u32,
             1 => rng.below(130) as u32,
             2 => rng.below(3000) as u32,
